@@ -75,7 +75,7 @@ pub fn differential(nodes: &[Node], data: &RV, partials: &[(String, interp::Part
     }
 }
 
-fn oracle(c: &Case, obs: &mut Obs) -> Check {
+pub fn oracle(c: &Case, obs: &mut Obs) -> Check {
     let mut nodes = c.nodes.clone();
     nodes.extend(probes());
     let nodes = normalize(nodes);
@@ -210,4 +210,9 @@ pub fn run(ctx: &Ctx) {
     ctx.random("plain", ctx.pick(60_000, 300_000), || gen::plain_text(40).prop_map(|text| Plain { text }), plain_oracle);
     ctx.cases("raw_quote_across_endraw", raw_quote_cases(), raw_quote_oracle);
     ctx.random("templates", ctx.pick(250_000, 1_500_000), strategy, oracle);
+}
+
+/// Byte-driven twin of `strategy` (engine E6b, see astdec.rs).
+pub fn fuzz_case(d: &mut crate::astdec::Dec) -> Case {
+    Case { nodes: d.nodes(&cfg(), 8) }
 }
